@@ -68,6 +68,7 @@ func c04(c *core.Check) {
 	c04includeSearch(c)
 	c04fieldDefaults(c)
 	c04backendRulesReach(c)
+	c04includeIdentity(c)
 	c04E4(c, inv, fns, parent)
 	c04E5(c, fns)
 	c04E6(c, reach)
